@@ -142,6 +142,8 @@ partial def parseGroup (s : String) : Option Group :=
 structure DSt where
   cfg : Cfg
   st : BSt
+  /-- a first query held inside `GetOrBuildBucket` (op `bq`): the path it is building, the query -/
+  held : Option (Path × Query) := none
 
 def DSt.store (d : DSt) : List Rec := d.st.store
 
@@ -161,7 +163,26 @@ def trackFlags (cfg : Cfg) : List String :=
   (if !cfg.bucketNotifyInsert then ["C08-bucket-misses-insert"] else []) ++
   (if !cfg.bucketNotifyUpdate then ["C08-bucket-misses-update"] else []) ++
   (if !cfg.bucketNotifyDelete then ["C08-bucket-misses-delete"] else []) ++
-  (if !cfg.bucketPendingReplayed then ["C08-bucket-build-drops-pending"] else [])
+  (if !cfg.bucketPendingReplayed then ["C08-bucket-build-drops-pending"] else []) ++
+  (if !cfg.readerDrainsInFlight then ["C08-bucket-served-before-drain"] else [])
+
+/-- the field paths the accelerated route looks up for this query, in order -/
+def hintPaths (cfg : Cfg) (q : Query) : List Path :=
+  match q.filter with
+  | none => []
+  | some g =>
+    if cfg.pagedQueriesBypass && (q.from_ != 0 || q.limit != 0) then [] else
+    match planFilter cfg g with
+    | .and hs _ => hs.map (·.path)
+    | .orUnion hs => hs.map (·.path)
+    | _ => []
+
+/-- walk the lookups of a query until one has to build its bucket: the state then, and that path -/
+def untilBuild (cfg : Cfg) : BSt → List Path → BSt × Option Path
+  | st, [] => (st, none)
+  | st, p :: rest =>
+    if st.buckets.any (fun b => decide (b.path = p) && b.init) then untilBuild cfg (ensureBuilt cfg st p) rest
+    else (st, some p)
 
 def renderItems (l : List Item) : String :=
   ",".intercalate (l.map (fun it => if it.2.isEmpty then it.1 else it.1 ++ "[" ++ "+".intercalate it.2 ++ "]"))
@@ -234,9 +255,36 @@ def optT : String → Option (Option Int)
   | "-" => some none
   | s => s.toInt?.map some
 
+def parseQ (idx ord fr lim ft tt mx filt : String) : Option Query :=
+  match slotOf idx, fr.toNat?, lim.toNat?, optT ft, optT tt, mx.toNat? with
+  | some sl, some fr, some lim, some ft, some tt, some mx =>
+    let g? : Option (Option Group) := if filt == "-" then some none else (parseGroup filt).map some
+    g?.map (fun g => { slot := sl, asc := ord == "asc", from_ := fr, limit := lim, fromT := ft, toT := tt,
+                       maxResults := mx, filter := g })
+  | _, _, _, _, _, _ => none
+
 def step (d : DSt) (line : String) : DSt × String :=
   match line.splitOn " " with
-  | ["case", _] => ({ d with st := BSt.init }, line)
+  | ["case", _] => ({ d with st := BSt.init, held := none }, line)
+  | ["bq", point, idx, ord, fr, lim, ft, tt, mx, filt] =>
+    -- a first query that is held inside GetOrBuildBucket: after its snapshot (`snap`) or after
+    -- BuildEquality and before DrainPending (`built`); `release` lets it finish
+    match parseQ idx ord fr lim ft tt mx filt with
+    | none => (d, "bad-op")
+    | some q =>
+      if (point != "snap" && point != "built") || d.held.isSome then (d, "bad-op") else
+      if d.store.isEmpty then (d, "done") else
+      match untilBuild d.cfg d.st (hintPaths d.cfg q) with
+      | (_, none) => ({ d with st := afterQuery d.cfg d.st q }, "done")
+      | (st0, some p) =>
+        let steps := [MOp.beginBuild p, .snapshot p] ++ (if point == "built" then [MOp.build p] else [])
+        ({ d with st := steps.foldl (stepB d.cfg) st0, held := some (p, q) }, "held")
+  | ["release"] =>
+    match d.held with
+    | none => (d, "ok")
+    | some (p, q) =>
+      let st1 := [MOp.build p, .drain p].foldl (stepB d.cfg) d.st
+      ({ d with st := afterQuery d.cfg st1 q, held := none }, "ok")
   | ["body", k, c, u, e, _hex, text] =>
     match c.toInt?, u.toInt?, e.toInt?, parseValue text.toList with
     | some c, some u, some e, some (v, []) => ({ d with st := upsert d.cfg d.st k (some v) c u e }, "ok")
@@ -286,7 +334,8 @@ def run (args : List String) : IO UInt32 := do
     lookupInDedupes := yes kv "lookupInDedupes", unionDedupes := yes kv "unionDedupes",
     bucketWindowTimeOnly := yes kv "bucketWindowTimeOnly",
     bucketNotifyInsert := yes kv "bucketNotifyInsert", bucketNotifyUpdate := yes kv "bucketNotifyUpdate",
-    bucketNotifyDelete := yes kv "bucketNotifyDelete", bucketPendingReplayed := yes kv "bucketPendingReplayed" }
+    bucketNotifyDelete := yes kv "bucketNotifyDelete", bucketPendingReplayed := yes kv "bucketPendingReplayed",
+    readerDrainsInFlight := yes kv "readerDrainsInFlight" }
   lineLoop step { cfg := cfg, st := BSt.init }
   return 0
 
